@@ -256,3 +256,86 @@ func H_reference() {
 	}
 	symx.Reach("end")
 }
+
+// calleeForms: ways an array reaches code that writes to it: the CALLER's array must be unchanged
+// afterwards. P is the expression naming the received array inside the callee.
+var calleeForms = []struct{ name, decl, call, p string }{
+	{"parameter", "function cw($p, $w) { MUT return 1; }", "cw($a, $w);", "$p"},
+	{"variadic", "function cw($w, ...$r) { MUT return 1; }", "cw($w, $a);", "$r[0]"},
+	{"variadic-second", "function cw($w, ...$r) { MUT return 1; }", "cw($w, 5, $a);", "$r[1]"},
+	{"spread-call", "function cw($w, ...$r) { MUT return 1; }", "cw($w, ...[$a]);", "$r[0]"},
+	{"default-then-parameter", "function cw($w, $p, $q = [1]) { MUT return 1; }", "cw($w, $a);", "$p"},
+	{"method-parameter", "class CW { function m($p, $w) { MUT return 1; } } $k = new CW();", "$k->m($a, $w);", "$p"},
+	{"static-method-parameter", "class CW { static function m($p, $w) { MUT return 1; } }", "CW::m($a, $w);", "$p"},
+	{"constructor-parameter", "class CW { function __construct($p, $w) { MUT } }", "$k = new CW($a, $w);", "$p"},
+	{"closure-parameter", "$f = function($p, $w) { MUT return 1; };", "$f($a, $w);", "$p"},
+	{"closure-capture", "", "$f = function($w) use ($a) { MUT return 1; }; $f($w);", "$a"},
+	{"arrow-parameter-then-call", "function cw($p, $w) { MUT return 1; } $g = fn($p, $w) => cw($p, $w);", "$g($a, $w);", "$p"},
+}
+
+// H_callee_writes: (shape) x (how the array reaches the callee) x (what the callee does to it).
+func H_callee_writes() {
+	sh := symx.Choose("shape", len(shapes))
+	f := symx.Choose("form", len(calleeForms))
+	m := symx.Choose("mut", nMut)
+	if m == 6 {
+		return // sort() compares through strings: covered with a concrete pool in H_alias
+	}
+	e0, e1, w := symx.Int("e0"), symx.Int("e1"), symx.Int("w")
+	S, F := shapes[sh], calleeForms[f]
+	mut, ok := mutation(m, F.p, S.key0, S.nested, sh)
+	if !ok {
+		return
+	}
+	decl := replace(F.decl, "MUT", mut)
+	call := replace(F.call, "MUT", mut)
+	src := prelude + decl + "\n$a = " + S.lit + ";\n" + snap("$a", sh) + "\nmark(1);\n" + call + "\nmark(2);\n" + snap("$a", sh)
+	s := sx.Compile(src)
+	symx.Assert(s.Err == nil, "template parses")
+	if s.Err != nil {
+		return
+	}
+	_, ctl := s.Run(sx.Bind{Name: "e0", V: sx.Int(e0)}, sx.Bind{Name: "e1", V: sx.Int(e1)}, sx.Bind{Name: "w", V: sx.Int(w)})
+	if ctl != nil {
+		symx.Reach("mutation-rejected")
+		return
+	}
+	tr, ok := logInts()
+	symx.Assert(ok, "snapshot is ints")
+	if !ok {
+		return
+	}
+	i1, i2 := -1, -1
+	for i, o := range sx.Log {
+		if o.Kind == 'M' && o.I == 1 {
+			i1 = i
+		}
+		if o.Kind == 'M' && o.I == 2 {
+			i2 = i
+		}
+	}
+	symx.Assert(i1 >= 0 && i2 > i1, "both snapshots taken")
+	if !(i1 >= 0 && i2 > i1) {
+		return
+	}
+	before, after := tr[:i1], tr[i2+1:]
+	kb, ka := sx.Log[:i1], sx.Log[i2+1:]
+	label := "callee shape" + string(rune('0'+sh)) + " " + F.name + " / " + mut + " leaves the caller's $a unchanged"
+	symx.Assert(len(before) == len(after), label)
+	if len(before) != len(after) {
+		return
+	}
+	for i := range before {
+		symx.Assert(kb[i].Kind == ka[i].Kind && before[i] == after[i], label)
+	}
+	symx.Reach("end")
+}
+
+func replace(s, old, new string) string {
+	for i := 0; i+len(old) <= len(s); i++ {
+		if s[i:i+len(old)] == old {
+			return s[:i] + new + s[i+len(old):]
+		}
+	}
+	return s
+}
